@@ -462,7 +462,7 @@ pub fn ref_tt(gf: &GF, names: &[String]) -> Option<u64> {
 /// fixed points whose bodies need NOT be monotone but whose iteration is stable (decided by `ref_tt`, so a
 /// formula that would make the implementation loop forever is never evaluated)
 pub fn convergent_any_polarity(tag: &str, out: &mut dyn Write, tier: &str, rng: &mut Rng, st: &mut Stats) {
-    let n = if tier == "thorough" { 20000 } else { 1500 };
+    let n = if tier == "thorough" { 150000 } else { 1500 };
     let mut emitted = 0;
     let mut tries = 0;
     while emitted < n && tries < 20 * n {
@@ -528,7 +528,7 @@ pub fn corpus_eval(tag: &str, file: &str, out: &mut dyn Write, st: &mut Stats) {
 /// the language forms of the counting comparisons: `[f1,…] op k` and `[..] op [..]`
 pub fn c05_lang(out: &mut dyn Write, tier: &str, rng: &mut Rng, st: &mut Stats) {
     corpus_eval("C05", "C01", out, st);
-    let n = if tier == "thorough" { 30000 } else { 2500 };
+    let n = if tier == "thorough" { 200000 } else { 2500 };
     for _ in 0..n {
         let names = gen_names(rng);
         let gf = {
@@ -558,7 +558,7 @@ pub fn c05_lang(out: &mut dyn Write, tier: &str, rng: &mut Rng, st: &mut Stats) 
 /// listed variables that are repeated, absent from the body, bound again inside, or that reach the
 /// body only through the iterate of an enclosing fixed point
 pub fn c04_lang(out: &mut dyn Write, tier: &str, rng: &mut Rng, st: &mut Stats) {
-    let n = if tier == "thorough" { 30000 } else { 2500 };
+    let n = if tier == "thorough" { 200000 } else { 2500 };
     for i in 0..n {
         let k = 2 + rng.below(3) as usize;
         let mut names: Vec<String> = Vec::new();
@@ -604,7 +604,7 @@ pub fn c04_lang(out: &mut dyn Write, tier: &str, rng: &mut Rng, st: &mut Stats) 
 pub fn c01(out: &mut dyn Write, tier: &str, rng: &mut Rng, st: &mut Stats) {
     corpus_eval("C01", "C01", out, st);
     convergent_any_polarity("C01", out, tier, rng, st);
-    let n = if tier == "thorough" { 40000 } else { 3000 };
+    let n = if tier == "thorough" { 400000 } else { 3000 };
     for i in 0..n {
         let names = gen_names(rng);
         let depth = 1 + rng.below(if tier == "thorough" { 6 } else { 5 }) as u32;
@@ -664,7 +664,7 @@ pub fn c06_formula(rng: &mut Rng, i: usize, st: &mut Stats) -> GF {
 }
 
 pub fn c06(out: &mut dyn Write, tier: &str, rng: &mut Rng, st: &mut Stats) {
-    let n = if tier == "thorough" { 20000 } else { 1500 };
+    let n = if tier == "thorough" { 100000 } else { 1500 };
     for i in 0..n {
         let gf = c06_formula(rng, i, st);
         count_kinds(&gf, st);
@@ -674,7 +674,7 @@ pub fn c06(out: &mut dyn Write, tier: &str, rng: &mut Rng, st: &mut Stats) {
     }
     // the library iterator with monotone closures
     let env: rsbdd::bdd::BDDEnv<usize> = rsbdd::bdd::BDDEnv::new();
-    let m = if tier == "thorough" { 20000 } else { 2000 };
+    let m = if tier == "thorough" { 100000 } else { 2000 };
     for _ in 0..m {
         let vars = crate::bddprops::rand_vars(rng, 3, 6);
         let a = from_tt(rng.below(256), &vars);
@@ -690,7 +690,7 @@ pub fn c06(out: &mut dyn Write, tier: &str, rng: &mut Rng, st: &mut Stats) {
     }
     // transformers that are not monotone: a chain of distinct diagrams d0 -> d1 -> ... -> dk -> dk (constants
     // may occur in the middle); `fp` must return dk, the first element the transformer maps to itself
-    let m2 = if tier == "thorough" { 20000 } else { 1500 };
+    let m2 = if tier == "thorough" { 100000 } else { 1500 };
     for _ in 0..m2 {
         let vars = crate::bddprops::rand_vars(rng, 3, 6);
         let k = 1 + rng.below(5) as usize;
@@ -710,7 +710,7 @@ pub fn c06(out: &mut dyn Write, tier: &str, rng: &mut Rng, st: &mut Stats) {
 }
 
 pub fn c09(out: &mut dyn Write, tier: &str, rng: &mut Rng, st: &mut Stats) {
-    let n = if tier == "thorough" { 30000 } else { 2500 };
+    let n = if tier == "thorough" { 300000 } else { 2500 };
     for i in 0..n {
         // small name pools so that names are reused as bound and free
         let k = 1 + rng.below(4) as usize;
@@ -758,6 +758,10 @@ pub fn c09(out: &mut dyn Write, tier: &str, rng: &mut Rng, st: &mut Stats) {
                 }).collect();
                 writeln!(out, "C09|free|{}|{}|{}|{}|{}|{}", ser_gf(&gf, &ids), ser_real(&pf.bdd), show_nats(&vars), show_nats(&free), r2f.join(","), res).unwrap();
                 st.hit(if free.len() < vars.len() { "some-bound" } else { "all-free" });
+                // the public free-variable test itself, asked about every variable of the text
+                let vf: Vec<String> = pf.vars.iter().map(|v| match guarded(AssertUnwindSafe(|| pf.var_is_free(&pf.bdd, v))) {
+                    Ok(true) => format!("{}=1", v.id), Ok(false) => format!("{}=0", v.id), Err(_) => format!("{}=PANIC", v.id) }).collect();
+                writeln!(out, "C09|vfree|{}|{}", ser_gf(&gf, &ids), vf.join(",")).unwrap();
             }
             Parsed::Err(_) => { writeln!(out, "C09|free|{}|ERR|||-|-", ser_gf(&gf, &HashMap::new())).unwrap(); }
             Parsed::Panic(_) => { writeln!(out, "C09|free|{}|PANIC|||-|-", ser_gf(&gf, &HashMap::new())).unwrap(); }
